@@ -33,7 +33,7 @@ package dynblock
 // (never shared with the receiver); the receiver is not written.
 // verif:func (*expandBody).PartialContent
 //@ requires b.original != nil && schema != nil
-//@ assigns nothing
+//@ assigns contentCalls, partialCalls
 //@ ensures kind: typeis(ret1, ptr(expandBody)) && unbox(ret1, ptr(expandBody)) != nil && fresh(unbox(ret1, ptr(expandBody)))
 //@ ensures original: unbox(ret1, ptr(expandBody)).original == b.original
 //@ ensures ctx: unbox(ret1, ptr(expandBody)).forEachCtx == b.forEachCtx
@@ -45,13 +45,13 @@ package dynblock
 
 // verif:func (*expandBody).Content
 //@ requires b.original != nil && schema != nil
-//@ assigns nothing
+//@ assigns contentCalls, partialCalls
 //@ ensures attrs: ret0 != nil && (exists raw ref :: ret0.Attributes == prepared(b, raw))
 
 // Uniform preparation: every path that hands out attributes applies prepareAttributes.
 // verif:func (*expandBody).JustAttributes
 //@ requires b.original != nil
-//@ assigns nothing
+//@ assigns contentCalls, partialCalls
 //@ ensures attrs: exists raw ref :: ret0 == prepared(b, raw)
 
 // ---- iterator scoping (README: an iterator is visible in its own block and in every nested dynamic block) ----
